@@ -82,6 +82,9 @@ func (g *Engine) Start() error {
 		g.pollers[i] = p
 	}
 
+	// The pollers read it when they start.
+	g.isOneshot = (g.EpollMod == EPOLLET && g.EPOLLONESHOT == EPOLLONESHOT)
+
 	// Start IO pollers.
 	for i := 0; i < g.NPoller; i++ {
 		g.pollers[i].ReadBuffer = make([]byte, g.ReadBufferSize)
@@ -116,7 +119,6 @@ func (g *Engine) Start() error {
 	}
 
 	g.Timer.Start()
-	g.isOneshot = (g.EpollMod == EPOLLET && g.EPOLLONESHOT == EPOLLONESHOT)
 
 	if g.AsyncReadInPoller {
 		if g.IOExecute == nil {
